@@ -194,7 +194,7 @@ func Mutate(r *rand.Rand, toks []GTok) string {
 // error that must be the first positioned one; ok is false when the chosen fault does not apply.
 func Fault(r *rand.Rand, toks []GTok) (text string, off int, class string, ok bool) {
 	t := append([]GTok{}, toks...)
-	switch r.Intn(7) {
+	switch r.Intn(9) {
 	case 0: // drop the `;` of a statement that has an argument and is followed by another token: that token is offending
 		var cand []int
 		for i := range t {
@@ -233,11 +233,27 @@ func Fault(r *rand.Rand, toks []GTok) (text string, off int, class string, ok bo
 			return
 		}
 		i := cand[r.Intn(len(cand))]
-		q := "\""
-		if r.Intn(2) == 0 {
-			q = "'"
+		switch r.Intn(4) {
+		case 0:
+			t[i] = GTok{Text: "\"" + t[i].Text + "\"", Kind: "dq"}
+		case 1:
+			t[i] = GTok{Text: "'" + t[i].Text + "'", Kind: "sq"}
+		default: // a concatenation of single- or double-quoted pieces
+			w := t[i].Text
+			k := 0
+			for k < len(w) && (k == 0 || w[k]&0xC0 == 0x80) {
+				k++
+			}
+			q1, q2 := "'", "'"
+			if r.Intn(3) == 0 {
+				q1 = "\""
+			}
+			if r.Intn(3) == 0 {
+				q2 = "\""
+			}
+			ins := []GTok{{Text: q1 + w[:k] + q1, Kind: "sq"}, {Text: "+", Kind: "plus"}, {Text: q2 + w[k:] + q2, Kind: "sq"}}
+			t = append(t[:i], append(ins, t[i+1:]...)...)
 		}
-		t[i] = GTok{Text: q + t[i].Text + q, Kind: "dq"}
 		text, offs := Render(r, t)
 		return text, offs[i], "kw", true
 	case 3: // an invalid escape in a double-quoted argument piece outside `pattern`
@@ -268,6 +284,29 @@ func Fault(r *rand.Rand, toks []GTok) (text string, off int, class string, ok bo
 		t[i].Text = "\"" + body[:k] + esc + body[k:] + "\""
 		text, offs := Render(r, t)
 		return text, offs[i] + 1 + k, "esc", true
+	case 7, 8: // a quoted string (or a concatenation) where `;` or `{` must stand: before the terminator of a statement that has an argument
+		var cand []int
+		for i := range t {
+			if (t[i].Kind == "semi" || t[i].Kind == "lbrace") && i > 0 && (t[i-1].Kind == "unq" || t[i-1].Kind == "sq" || t[i-1].Kind == "dq") {
+				cand = append(cand, i)
+			}
+		}
+		if len(cand) == 0 {
+			return
+		}
+		i := cand[r.Intn(len(cand))]
+		var ins []GTok
+		switch r.Intn(3) {
+		case 0:
+			ins = []GTok{{Text: "'s'", Kind: "sq"}}
+		case 1:
+			ins = []GTok{{Text: "\"s\"", Kind: "dq"}}
+		default:
+			ins = []GTok{{Text: "'s'", Kind: "sq"}, {Text: "+", Kind: "plus"}, {Text: "'t'", Kind: "sq"}}
+		}
+		t = append(t[:i], append(ins, t[i:]...)...)
+		text, offs := Render(r, t)
+		return text, offs[i], "semi", true
 	case 4, 5, 6: // an unterminated quote or comment as the last thing in the text
 		text, _ := Render(r, t)
 		if !strings.HasSuffix(text, "\n") && !strings.HasSuffix(text, " ") {
